@@ -42,10 +42,10 @@ def run(ctx):
     nt = lambda h: h != "-"
     i16, m16 = ctx.correspond("crc16", hexes, lambda h: hx(crc16(bytes.fromhex(h) if h != "-" else b"")),
                               lambda h: f"crc16 {h}", nt)
-    i32l, _ = ctx.correspond("crc32c-little", hexes,
+    i32l, model32l = ctx.correspond("crc32c-little", hexes,
                              lambda h: hx(crc32c(bytes.fromhex(h) if h != "-" else b"")),
                              lambda h: f"crc32c {h} little", nt)
-    i32b, _ = ctx.correspond("crc32c-big", hexes,
+    i32b, model32b = ctx.correspond("crc32c-big", hexes,
                              lambda h: hx(crc32c(bytes.fromhex(h) if h != "-" else b"", 'big')),
                              lambda h: f"crc32c {h} big", nt)
     # property oracle: implementation against the extracted bitwise specification
@@ -73,6 +73,25 @@ def run(ctx):
             ctx.fail("crc-depends-on-earlier-calls", f"little/big/little/big crc32c and crc16 twice on {h[:40]}: {seq}",
                      {"fn": "history", "data": h})
     ctx.extra["history_cases"] = nh
+    if ctx.thorough():
+        # three-way agreement on a sample: the same model functions evaluated INSIDE Coq (vm_compute, no extraction) must
+        # give what the extracted OCaml driver gave (and hence what the implementation gave)
+        sample = [c for c in cs if 0 < len(c) <= 64][:120]
+        lit = "[" + "; ".join("[" + "; ".join(str(b) for b in c) + "]" for c in sample) + "]"
+        term = (f"flat_map (fun d => [of_be (crc16 d); of_be (crc32c d false); of_be (crc32c d true); "
+                f"of_be (s_crc16 d); of_be (s_crc32c d false)]) ({lit} : list (list N))")
+        nums, err = core.coq_eval_numbers("Base.Bytes Gen.CrcTables Spec.Crc Model.Crc", term, "c18_cases")
+        if nums is None:
+            ctx.broken.append("in-Coq evaluation of the CRC model failed: " + err[:200])
+        else:
+            idx = {h: k for k, h in enumerate(hexes)}
+            want = []
+            for c in sample:
+                k = idx[hx(c)]
+                want += [int(m16[k], 16), int(model32l[k], 16), int(model32b[k], 16), int(s16[k], 16), int(s32l[k], 16)]
+            if nums != want:
+                ctx.broken.append("extraction cross-check: Coq's vm_compute and the extracted OCaml model disagree on the CRC functions")
+            ctx.extra["in_coq_cross_check_cases"] = len(sample)
     ctx.extra["oracle_cases"] = 3 * len(hexes)
     ctx.extra["length_distribution"] = _dist(cs)
 
